@@ -510,7 +510,7 @@ class IO:
                 sim.violate("C14", o, f"restart from {fmt}: {m}", op, out["tags"])
                 return out
             sim.stat("C14.eval")
-        sim.adopt(new)
+        sim.adopt(new, same_keys=(fmt == "internal"))
         if self.requested:
             # what the client asked the importer to switch on is on, by the client's account
             sim.model_active |= self.requested
@@ -545,7 +545,7 @@ class IO:
             sim.guard("restart_failed", f"{fmt} {type(e).__name__} {str(e)[:120]}")
         if observe.canon(new) != before:
             sim.guard("restart_failed", f"{fmt}: rebuilt object differs")
-        sim.adopt(new)
+        sim.adopt(new, same_keys=True)
         sim.count("io_rebuild_" + fmt)
         out["cls"] = "accepted"
         return out
@@ -645,7 +645,7 @@ class IO:
             sim.guard("restart_failed", "late internal loads differently")
         if own:
             sim.stat("C14.eval")
-        sim.adopt(new)
+        sim.adopt(new, same_keys=True)
         sim.count("io_restart_late")
         out["cls"] = "accepted"
         return out
